@@ -63,18 +63,20 @@ def binary_shapes(n):
 
 
 def histories(initial, enabled, step, max_depth):
-    """Every enabled operation sequence of length <= max_depth, breadth first (shortest first).
+    """Every enabled operation sequence of length <= max_depth, shortest first (iterative deepening, depth-first within
+    a length, so memory stays O(depth) however many histories there are).
 
     `enabled(model_state)` -> iterable of ops, `step(model_state, op)` -> new model state (pure, reference machine).
-    Stateless search: no pruning by state, every history is yielded.
+    Stateless search: no pruning by state, every history is yielded exactly once.
     """
-    frontier = [((), initial)]
     yield ()
-    for _ in range(max_depth):
-        nxt = []
-        for hist, st in frontier:
-            for op in enabled(st):
-                h2 = hist + (op,)
-                nxt.append((h2, step(st, op)))
-                yield h2
-        frontier = nxt
+
+    def rec(hist, st, remaining):
+        if remaining == 0:
+            yield hist
+            return
+        for op in enabled(st):
+            yield from rec(hist + (op,), step(st, op), remaining - 1)
+
+    for d in range(1, max_depth + 1):
+        yield from rec((), initial, d)
